@@ -228,7 +228,20 @@ def rule_no_hidden_state(eng, rep, rule="C19-2.no-other-nondeterminism-or-hidden
                         rep.bad(rule, eng.where(fi, d["ast"]), "%s|mutates-default-argument|%s" % (fid, p), "the mutable default of `%s` can be mutated: state leaks between calls" % p)
                 if not mutated:
                     rep.ok(rule, eng.where(fi), "mutable default of `%s` is never mutated (no in-place write reaches the parameter's entry value)" % p)
-    rep.ok(rule, "package", "%d functions reachable from solve: no global/nonlocal, id/hash/time/random/uuid, set iteration or module-state write" % nfun)
+    # class bodies: a mutable object created in the class body is one object shared by every instance (and every call of solve) until an instance re-binds it
+    ncls = 0
+    for cname, cinfo in sorted(eng.prog.classes.items()):
+        ncls += 1
+        for st in cinfo.node.body:
+            if isinstance(st, (ast.Assign, ast.AnnAssign)) and getattr(st, "value", None) is not None:
+                v = st.value
+                mutable = isinstance(v, (ast.List, ast.Dict, ast.Set, ast.ListComp, ast.DictComp, ast.SetComp)) or \
+                    (isinstance(v, ast.Call) and ekey(v.func).split(".")[0] in ("list", "dict", "set", "np", "numpy", "collections", "deque", "defaultdict", "bytearray"))
+                names = [ekey(t) for t in (st.targets if isinstance(st, ast.Assign) else [st.target])]
+                if mutable:
+                    rep.bad(rule, "dfols/%s.py:%s:%d" % (cinfo.module, cname, st.lineno), "%s.%s|class-level-mutable|%s" % (cinfo.module, cname, "+".join(names)),
+                            "class attribute `%s = %s` is a single mutable object shared by all instances of %s: what one solve() appends to it is still there in the next one" % (names[0], short(v, 30), cname))
+    rep.ok(rule, "package", "%d functions reachable from solve: no global/nonlocal, id/hash/time/random/uuid, set iteration or module-state write; %d class bodies without mutable class attributes" % (nfun, ncls))
     # ParameterList is built inside solve
     solve = eng.fn("solver.solve")
     ctor = [ci for ci in eng.calls_in(solve) if ci.kind == "CTOR" and any(t.cls == "ParameterList" for t in ci.targets)]
